@@ -292,3 +292,12 @@ V("eq-parse-node-type-local", "C16", ND, "    if node is None or node == b\"\":\
 V("eq-iter-message-and-comment", "C10", IT, "                # This segment is to the left of the key, keep looking...\n                continue", "                # nothing here\n                continue", expect="silent")
 V("eq-smt-delete-local", "C14", SM, "        return self.set(key, self._default)", "        updates = self.set(key, self._default)\n        return updates", expect="silent", props=["C14", "C15"])
 V("eq-hexary-new-public-method", "C18", HX, "    def exists(self, key):\n        validate_is_bytes(key)\n", "    def has_key(self, key):\n        validate_is_bytes(key)\n        return self.exists(key)\n\n    def exists(self, key):\n        validate_is_bytes(key)\n", expect="silent", props=ALLP)
+
+# --- C16 bit packing --------------------------------------------------------------------------
+BI = "trie/utils/binaries.py"
+V("c16-keypath-pad-mod8", "C16", BI, "    padded_bin = bytes((4 - len(input_bin)) % 4) + input_bin", "    padded_bin = bytes((4 - len(input_bin)) % 8) + input_bin", rule="SIB7b")
+V("c16-keypath-reader-skip", "C16", BI, "    return path[4 + ((4 - padded_len) % 4) :]", "    return path[4 + padded_len :]", rule="SIB7b")
+V("c16-keypath-flag-drop-2", "C16", BI, "    if path[0] == 1:\n        path = path[4:]", "    if path[0] == 1:\n        path = path[2:]", rule="SIB7b")
+V("c16-exp-lsb-first", "C16", "trie/constants.py", "EXP = tuple(reversed(tuple(2**i for i in range(8))))", "EXP = tuple(2**i for i in range(8))", rule="SIB7b")
+V("c16-keypath-prefix-swapped", "C16", BI, "    if len(padded_bin) % 8 == 4:\n        return decode_from_bin(PREFIX_00 + prefix + padded_bin)\n    else:\n        return decode_from_bin(PREFIX_100000 + prefix + padded_bin)", "    if len(padded_bin) % 8 == 4:\n        return decode_from_bin(PREFIX_100000 + prefix + padded_bin)\n    else:\n        return decode_from_bin(PREFIX_00 + prefix + padded_bin)", rule="SIB7b")
+V("c16-silent-keypath-local", "C16", BI, "    return path[4 + ((4 - padded_len) % 4) :]", "    skip = 4 + ((4 - padded_len) % 4)\n    return path[skip:]", expect="silent")
